@@ -127,10 +127,17 @@ func TestC02QueryWire(t *testing.T) {
 	})
 }
 
+// c02BigCompressed steers runC02 to compressed connections and blocks holding a large
+// incompressible value (C05's view of the same wire: the frames the client produces).
+var c02BigCompressed bool
+
 func runC02(rt *rapid.T, st *stats.Collector) {
 	clientRev, serverRev := drawRevs(rt)
 	N := min(clientRev, serverRev)
 	comp := drawComp(rt)
+	if c02BigCompressed {
+		comp = compModes[rapid.IntRange(1, len(compModes)-1).Draw(rt, "compressed-mode")]
+	}
 	e := newEnv(serverRev)
 	e.warm = rapid.SampledFrom(warmKinds).Draw(rt, "earlier-exchange")
 	defer e.conn.ForceClose()
@@ -164,6 +171,9 @@ func runC02(rt *rapid.T, st *stats.Collector) {
 	}
 	var ext, input []inputCol
 	huge := rapid.IntRange(0, 39).Draw(rt, "huge-block")
+	if c02BigCompressed {
+		huge = rapid.IntRange(0, 1).Draw(rt, "huge-block-where")
+	}
 	if rapid.Bool().Draw(rt, "external-data") {
 		ext = drawInput(rt, "ext", 2, 0)
 		if huge == 1 {
